@@ -48,6 +48,21 @@ def table(path):
                 pb.correct_position(vec)
                 if got != want / 8.0 or vec[idx] != want / 8.0:
                     fails.append(dict(what=mode + " correct_position", L=L, arg=p, got=[got, vec[idx]], want=want / 8.0))
+            # positions: one repeated value in all components (each direction has its own box length), in one long-lived list
+            pos_want = {(l, p_): w for l, p_, w in tab["pos"]}
+            lens8p = [L, L, L] if mode == "cubic" else [int(round(x * 8)) for x in lens]
+            vec3 = [0.0] * dim
+            for l, p_, _w in tab["pos"]:
+                if l != L or any((lens8p[j], p_) not in pos_want for j in range(dim)):
+                    continue
+                n += 1
+                for j in range(dim):
+                    vec3[j] = p_ / 8.0
+                pb.correct_position(vec3)
+                wantv = [pos_want[(lens8p[j], p_)] / 8.0 for j in range(dim)]
+                if vec3 != wantv:
+                    fails.append(dict(what=mode + " correct_position of a vector with one repeated value", L=L, arg=p_,
+                                      got=list(vec3), want=wantv))
             # separations: all three components carry lattice values (the other two from rows of their own box length), the
             # reference / target lists are long-lived objects updated in place, and must come back unchanged
             lens8 = [L, L, L] if mode == "cubic" else [int(round(x * 8)) for x in lens]
